@@ -869,6 +869,13 @@ func genCase(t *rapid.T, g0 map[string]bool) Case {
 		c.StubOut = genText(t, "stubout", 6, noRawEnd)
 	case "html-svg":
 		c.Payload = rapid.SampledFrom([]string{"<svg><g id=\"a\"></g></svg>", "<svg viewBox=\"0 0 10 10\"><path d=\"M 0 0 L 10 10\"/></svg>", "<svg width=\"10\"><rect x=\"0\" y=\"0\"/></svg>", "<svg xmlns=\"http://www.w3.org/2000/svg\">\n<style> a { fill : red } </style>\n</svg>"}).Draw(t, "svg")
+		if rapid.IntRange(0, 5).Draw(t, "selfclosing") == 0 {
+			if g0["noSelfClosingForeign"] {
+				hx.C.Exclude("noSelfClosingForeign")
+			} else {
+				c.Payload = "<svg id=\"a\"/>"
+			}
+		}
 		c.StubOut = fmt.Sprintf("<svg><g id=\"stub%d\"/></svg>", rapid.IntRange(0, 99).Draw(t, "stubid"))
 	case "html-math":
 		c.Payload = rapid.SampledFrom([]string{"<math><mi>x</mi></math>", "<math display=\"block\"> <mn>1</mn> </math>"}).Draw(t, "math")
@@ -1057,6 +1064,9 @@ func matchKnown(c Case, err error) string {
 	msg := err.Error()
 	if (c.Host == "html-style-attr" || c.Host == "html-on-attr") && (reAmbiguousAmp.MatchString(c.Payload) || strings.Contains(c.Payload, "&amp;") || c.Reg != "real" && reAmbiguousAmp.MatchString(c.StubOut)) && (strings.Contains(msg, "with the embedded content") || strings.Contains(msg, "at the embedded place stands") || strings.Contains(msg, "was given")) {
 		return "C11-attr-ambiguous-ampersand"
+	}
+	if (c.Host == "html-svg" || c.Host == "html-math") && strings.HasSuffix(c.Payload, "/>") && !strings.Contains(c.Payload, "</") {
+		return "C11-selfclosing-svg-swallows-rest"
 	}
 	if c.Reg == "fail-parse" && strings.Contains(msg, "error position") && (strings.Contains(c.Pre, "\n") || strings.Contains(c.Pre, "  ")) {
 		return "C11-error-line-after-inplace-edits"
